@@ -66,6 +66,18 @@ def impl_queries(m):
         tag("excludes", listing(fm.get_excludes_constraints)),
         tag("requires", listing(fm.get_requires_constraints)),
     ]
+    # not part of the compared value: per-constraint predicates, for the oracle
+    preds = {}
+    for key, meth in [("logical", "is_logical_constraint"), ("arithmetic", "is_arithmetic_constraint"),
+                      ("aggregations", "is_aggregation_constraint"), ("complex", "is_complex_constraint"),
+                      ("simple", "is_simple_constraint"), ("pseudocomplex", "is_pseudocomplex_constraint"),
+                      ("strictcomplex", "is_strictcomplex_constraint"), ("excludes", "is_excludes_constraint"),
+                      ("requires", "is_requires_constraint")]:
+        try:
+            preds[key] = [i for i, c in enumerate(fm.ctcs) if getattr(c, meth)()]
+        except Exception:  # noqa: BLE001
+            preds[key] = None
+    impl_queries.last_preds = preds
     after = spec.dump_fm(fm)
     return tag("q", tag("features", *fq), tag("relations", *rq), tag("listings", *listings),
                tag("lookup", *lookup), tag("ctcs", *ctcs)), after
@@ -192,6 +204,14 @@ def oracle_c03(m, reply):
                 classify(r["min"], r["max"], len(r["children"])) == "alternative" for r in f["rels"]))
             expect("or_group", lambda f: any(
                 classify(r["min"], r["max"], len(r["children"])) == "or" for r in f["rels"]))
+    # constraint-kind listings = the constraints satisfying the kind predicate, in order
+    preds = getattr(impl_queries, "last_preds", {})
+    for x in q["ctcs"]:
+        key, res = x[0], x[1]
+        if res[0] == "ok" and preds.get(key) is not None:
+            got = [int(i) for i in res[1]]
+            if got != preds[key]:
+                fails.append((f"ctc_listing:{key}", f"{got} != {preds[key]}"))
     # relation classes: exactly one, and the one the property's definition gives
     for owner, children, mn, mx, bits, _s in q["relations"]:
         mn, mx, n = int(mn), int(mx), len(children)
@@ -251,7 +271,7 @@ def run(ctx):
             impl_reply = f"(crash {spec.exn_name(e)} {type(e).__name__})"
         nontrivial = spec.spec_size(m["root"]) >= 2 or bool(m["ctcs"])
         st.record(label, req, impl_reply, model_reply, nontrivial)
-        if after is not None and after != m:
+        if after is not None and sx.dumps(spec.fm_sx(after)) != sx.dumps(spec.fm_sx(m)):
             st.mismatch(label, req, "model mutated by queries", "unchanged")
         if reply is not None:
             for clause, detail in oracle_c03(m, sx.loads(impl_reply)):
